@@ -158,7 +158,7 @@ def main(tier, seed, budget):
     cfgs = config_list(seed, tier)
     src = source_lines()
     stats = dict(worlds=0, profile_worlds=0, faults_planned=0, faults_fired=0, armed_not_fired=0, by_gran={}, by_site={},
-                 by_P={}, multi_fault_worlds=0, covered=set(), worlds_nontrivial=set(), probes={k: 0 for k in PROBES}, timeouts_handled_msgs=0,
+                 by_P={}, multi_fault_worlds=0, blocks_opened=0, covered=set(), worlds_nontrivial=set(), probes={k: 0 for k in PROBES}, timeouts_handled_msgs=0,
                  events=0, ticks_total=0, blocks_total=0, classes_total=0, sound_functions=0, ref_failed=[], sweep=None, repeat_sweep=None, line_sweep=None)
     samples = []
     selftest = {}
@@ -222,6 +222,7 @@ def main(tier, seed, budget):
             wkey = []
             for rki, rk in enumerate(r['ranks']):
                 clk = rk.get('clock') or {}
+                stats['blocks_opened'] += clk.get('blocks') or 0
                 wkey += [(rki, f[0], f[1], f[2]) for f in clk.get('fired') or []]
                 stats['armed_not_fired'] += len(clk.get('armed_not_fired') or [])
                 for f in clk.get('fired') or []:
@@ -370,6 +371,8 @@ def main(tier, seed, budget):
         fired_by_granularity=stats['by_gran'], fired_by_call_site=stats['by_site'], worlds_by_P=stats['by_P'],
         multi_fault_worlds=stats['multi_fault_worlds'], probes=stats['probes'], single_fault_sweep=stats['sweep'], same_path_every_round_sweep=stats['repeat_sweep'], slow_statement_sweep=stats['line_sweep'],
         seam_events=stats['events'], functions_checked_by_libsound=stats['sound_functions'],
+        simulated_time=dict(seam_events=stats['events'], timed_blocks_opened=stats['blocks_opened'],
+                            note='virtual time stands still inside a timed block unless the fault plan expires it; the measure of simulated time is the number of seam events and of timed blocks executed'),
         runs_per_hour=round(3600.0 * stats['worlds'] / max(wall, 1e-9)), selftest=selftest, components=base.COMPONENTS,
         fault_kinds={'F3 timer expiry (statement)': stats['by_gran'].get('stmt', 0), 'F3 timer expiry (inside sympy call)': stats['by_gran'].get('deep', 0), 'F3 timer expiry (same source line every time)': stats['by_gran'].get('line', 0),
                      'F5 rank count P>=2 worlds': sum(v for k, v in stats['by_P'].items() if k > 1)},
